@@ -3,7 +3,7 @@ import core
 from concurrent.futures import ThreadPoolExecutor
 from checks.generic import compile_gen, first_index, COMMON_TRUSTED
 
-PROPS = ["c19_wire_only_public", "c19_no_private_on_wire", "c19_private_stays_local", "c19_agent_replace",
+PROPS = ["c19_wire_only_public", "c19_no_private_on_wire", "c19_private_stays_local", "c19_private_file_mode", "c19_old_existing_mode_refuted", "c19_agent_replace", "c19_agent_replace_faulty", "c19_best_effort_cleanup_refuted",
          "c19_offered_accepted_spec", "c19_old_p384_refuted"]
 
 TRUSTED = [
@@ -52,12 +52,13 @@ def run(ctx):
     if hid_dir():
         stub[os.path.join(hid_dir(), "zz_verif_stub.go")] = os.path.join(core.VERIF, "harness", "stubs", "flynn_hid_nocgo.go")
     nocgo = {"CGO_ENABLED": "0", "GODEBUG": "goindex=0"}
-    with ThreadPoolExecutor(max_workers=3) as ex:
+    with ThreadPoolExecutor(max_workers=4) as ex:
         fs = ex.submit(ctx.go_harness, "cmd/keymasterd", "TestVerif_C19S",
                        ["kmd/common.go", "kmd/creds.go", "kmd/consts.go", "kmd/c19s.go", os.path.join(ctx.work, "gen", "mux_gen.go")], timeout=1200)
         fc = ex.submit(ctx.go_harness, "cmd/keymaster", "TestVerif_C19", [base_for(ctx, "main"), "client/c19c.go"],
                        env=nocgo, extra_overlay=stub, timeout=1200)
         fa = ex.submit(ctx.go_harness, "lib/client/sshagent", "TestVerif_C19A", [base_for(ctx, "sshagent"), "sshagent/c19a.go"], timeout=900)
+        fu = ex.submit(ctx.go_harness, "lib/client/util", "TestVerif_C19U", [base_for(ctx, "util"), "clientutil/c19u.go"], timeout=900)
         try:
             c_ok, c_res, c_log = fc.result()
         finally:
@@ -65,6 +66,7 @@ def run(ctx):
             open(os.path.join(ctx.work, "c19_client_done"), "w").write("done")
         s_ok, s_res, s_log = fs.result()
         a_ok, a_res, a_log = fa.result()
+        u_ok, u_res, u_log = fu.result()
     if compile_gen(ctx, names=("Tables.v",)):
         ctx.gen_obligations("Obl_C19.v", ["c19_serialises_public_only", "c19_private_to_0600_files", "c19_offered_accepted", "c19_offered_accepted_all"])
     jobs = []
@@ -74,7 +76,9 @@ def run(ctx):
         jobs.append(("CasesC19S.v", "c19s_mismatches", "CasesC19S.idx", "server verdict on %s keys of the types the client offers = server_accepts over the regenerated pattern", "c19s_ncases"))
     if a_res is not None:
         jobs.append(("CasesC19A.v", "c19a_mismatches", "CasesC19A.idx", "agent listing after every operation = model (%s operations)", "c19a_ncases"))
-    with ThreadPoolExecutor(max_workers=3) as ex:
+    if u_res is not None:
+        jobs.append(("CasesC19U.v", "c19u_mismatches", "CasesC19U.idx", "mode of the private key file after every generation (existing file modes x umasks x regenerations) = model write_private (%s generations)", "c19u_ncases"))
+    with ThreadPoolExecutor(max_workers=4) as ex:
         outs = list(ex.map(lambda j: ctx.eval_cases(os.path.join(ctx.work, j[0]), "c19_vs_model:" + j[0]), jobs))
     for j, res in zip(jobs, outs):
         if res is not None:
